@@ -310,7 +310,8 @@ def run_check(tier: str, seed: int, workers: Any) -> Dict[str, Any]:
         rule=f'the two smallest programs with <= {deep["K"]} requests', assumptions=[], bounds=deep,
         describe=lambda u: programs.describe(u[0]))
     out = runner.merge([part1, part2, part_deep])
-    part3 = check_recreated()
+    from ..explore import guarded_part
+    part3 = guarded_part(check_recreated, 240, {'part': 'recreated'})
     out['coverage']['evaluations'] += part3['n']
     out['coverage']['traces_validated_against_impl'] += part3['n']
     out['coverage']['transitions'] += part3['n']
